@@ -9,7 +9,7 @@ CTYPE = "bool * Z * Z * list ev * list (Z * Z * bool * bool)"
 AGREE = ("  let '(full, seq0, req0, evs, obs) := c in\n"
          "  schedule_agrees full seq0 req0 evs obs")
 
-EV = {"gate": "EGate", "active": "EActive", "count": "ECount", "locki": "ELockI", "chunk": "EChunk",
+EV = {"gate": "EGate", "active": "EActive", "id": "EId", "locki": "ELockI", "chunk": "EChunk",
       "unlocki": "EUnlockI", "done": "EDone"}
 REV = {"renstart": "ERenStart", "rengate": "ERenGate", "rendrain": "ERenDrain", "renlock": "ERenLock", "rencopy": "ERenCopy",
        "renopn": "ERenOpn", "reninstall": "ERenInstall", "renfail": "ERenFail", "renunlock": "ERenUnlock"}
@@ -38,40 +38,49 @@ def next_seq(x):
 
 
 def classify(c):
-    """which failing class (if any) the schedule belongs to: sender in the window at the drain / failed renewal"""
-    pcs, window, failed = {}, False, False
+    """(a renewal found pendingReq drained while a sender was counted, a renewal failed after its OPN)"""
+    inflight, overtook, failed = set(), False, False
     for e in c["events"]:
         n = e[0]
-        if n in ("gate", "active"):
-            pcs[e[1]] = "window"
-        elif n == "count":
-            pcs[e[1]] = "counted"
+        if n == "gate":
+            inflight.add(e[1])
+        elif n == "done":
+            inflight.discard(e[1])
         elif n == "rendrain":
-            if any(v == "window" for v in pcs.values()):
-                window = True
+            if inflight:
+                overtook = True
         elif n == "renfail":
             failed = True
-    return window, failed
+    return overtook, failed
 
 
 def oracle(c):
     fails = []
     w = c["wire"]
-    window, failed = classify(c)
+    overtook, failed = classify(c)
     if w and not c.get("sign") and w[0][0] != next_seq(c["seq0"]):
-        window0, failed0 = classify(c)
         fails.append(("sequence-numbers-not-consecutive", "the first chunk carries sequence number %d, the counter was %d before" % (w[0][0], c["seq0"])))
     for i in range(1, len(w)):
+        if c.get("sign") and (w[i][3] or w[i - 1][3]):
+            continue    # the sequence header of an encrypted OPN is not readable on the wire
         if w[i][0] != next_seq(w[i - 1][0]):
-            key = "renewal-window-duplicate-sequence-numbers" if window else (
-                "failed-renewal-reuses-sequence-number" if failed else "sequence-numbers-not-consecutive")
-            fails.append((key, "chunk %d carries sequence number %d after %d (request ids %d, %d)" % (i, w[i][0], w[i - 1][0], w[i][1], w[i - 1][1])))
+            fails.append(("sequence-numbers-not-consecutive", "chunk %d carries sequence number %d after %d (request ids %d, %d)%s" % (
+                i, w[i][0], w[i - 1][0], w[i][1], w[i - 1][1], " after a failed renewal" if failed else "")))
             break
     for i in range(1, len(w)):
+        if c.get("sign") and (w[i][3] or w[i - 1][3]):
+            continue
         if not w[i - 1][2] and w[i][1] != w[i - 1][1]:
-            key = "renewal-window-interleaved-messages" if window else "messages-interleaved"
-            fails.append((key, "chunk %d (request id %d) follows a non-final chunk of request id %d" % (i, w[i][1], w[i - 1][1])))
+            fails.append(("messages-interleaved", "chunk %d (request id %d) follows a non-final chunk of request id %d" % (i, w[i][1], w[i - 1][1])))
             break
+    if overtook:
+        fails.append(("renewal-overtook-counted-sender", "pendingReq.Wait() returned while a request was between the renewal gate and pendingReq.Done()"))
+    if c["scenario"] in ("witness-renewal-window", "witness-interleaved-messages", "sign-renewal-window"):
+        # the renewer must be seen blocked after it has locked the gate, while the first sender is counted
+        if not any(st[0] == "R0" and st[1] == "sc.renew.gateLocked" and st[2] == "blocked" for st in c.get("steps", [])):
+            fails.append(("renewal-not-held-back", "the renewal did not block in pendingReq.Wait() although a sender was past the gate: steps %s" % c.get("steps")))
+    if c.get("log"):
+        fails.append(("unmapped-segment", "a thread moved between scheduling points in an order the code does not have: %s" % c["log"][:3]))
     if c.get("deadlock"):
         fails.append(("schedule-deadlocked", "no thread could be scheduled and not all were finished: %s" % c["schedule"]))
     return fails
@@ -150,13 +159,14 @@ def run(ctx, mode="c11"):
     else:
         corr_ok = False
 
-    win = sum(1 for c in cases if classify(c)[0])
+    held = sum(1 for c in cases if any(st[0].startswith("R") and st[1] == "sc.renew.gateLocked" and st[2] == "blocked" for st in c.get("steps", [])))
     distinct = {json.dumps(c["events"]) for c in cases}
     ctx.coverage.update({
         "evaluations": len(cases), "distinct_nontrivial": len(distinct),
-        "rule": "schedules forced on the real client channel through the verifhook points (go/internal/sched): 4 model-derived schedules (3 witnesses + 1 gate-respected) and seeded random schedules of 1-3 senders (1-3 chunks each, 8 KiB send buffer) and 0-2 renewals; plus concurrent multi-chunk response senders on the server channel; wire captured by a TCP proxy (None mode); distinct = distinct event schedules",
+        "rule": "schedules forced on the real client channel through the verifhook points (go/internal/sched): the 3 schedules that refuted the property before the fixes (now the renewal is observed blocked in pendingReq.Wait()), 1 renewal under load, and seeded random schedules of 1-3 senders (1-3 chunks each, 8 KiB send buffer) and 0-2 renewals; plus concurrent multi-chunk response senders on the server channel; wire captured by a TCP proxy (None mode); distinct = distinct event schedules",
         "samples": [{"scenario": c["scenario"], "schedule": c["schedule"][:20], "wire": c["wire"][:8]} for c in cases[:3] + cases[-1:]],
-        "schedules_with_sender_in_window": win,
+        "schedules_in_which_a_renewal_was_held_back_by_a_counted_sender": held,
+        "schedules_with_failed_renewal": sum(1 for c in cases if classify(c)[1]),
         "schedules_with_renewal": sum(1 for c in cases if c.get("renews")),
         "chunks_on_wire": sum(len(c["wire"]) for c in cases), "scenario_errors": len(errors),
         "traces_validated_against_impl": len(cases), "model_impl_mismatches": len(mism),
